@@ -25,6 +25,10 @@
 #include <unordered_map>
 #include <vector>
 
+#ifdef IORA_VERIF
+namespace iora { namespace verif { struct Access; } } // verification harness access (add-only)
+#endif
+
 namespace iora {
 namespace network {
 
@@ -382,6 +386,10 @@ public:
     std::lock_guard<std::mutex> lock(_dataMutex);
     return _negotiatedProtocol;
   }
+
+#ifdef IORA_VERIF
+  friend struct iora::verif::Access; // lets the /verif driver feed handleData() every segmentation directly
+#endif
 
 private:
   /// \brief Heap control block for the reconnect worker, co-owned by the worker's
